@@ -2278,7 +2278,7 @@ static int sp_dsyrk(char uplo, char trans, number alpha, void *a,
       init_spa(s, NULL, 0);
 
       for (k=B->colptr[j]; k<B->colptr[j+1]; k++) {
-        spa_daxpy_uplo(alpha.d*((double *)B->values)[k], A, B->rowind[k],
+        spa_daxpy_uplo(((double *)B->values)[k], A, B->rowind[k],
             s, j, uplo);
       }
 
